@@ -66,6 +66,12 @@ func (codec *wsCodec) RemoteAddr() string {
 }
 
 func (codec *wsCodec) ReadMessage() (*jsonrpc2.Message, error) {
+	// The decoder stops at the end of the JSON value: skip what it left unread
+	// of the previous message (the trailing newline, the last fragments of a
+	// message sent in several frames), the next message's header follows it.
+	if err := codec.r.Discard(); err != nil {
+		return nil, err
+	}
 	_, err := codec.r.NextFrame()
 	if err != nil {
 		return nil, err
